@@ -138,8 +138,13 @@ def gen_T18():
          '_restoreEvents: single/repeat dispatch changed')
     single = branch[0].body
     need(ast.unparse(single[0]) == 'n = None' and isinstance(single[1], ast.If)
-         and ast.unparse(single[1].test) == 'schedule.schedule.counter > int(name)'
-         and [ast.unparse(x) for x in single[1].body] == ['n = int(name)'], '_restoreEvents: computation of the old id n changed')
+         and [ast.unparse(x) for x in single[1].body] == ['n = int(name)'] and not single[1].orelse,
+         '_restoreEvents: computation of the old id n changed')
+    cond = ast.unparse(single[1].test)
+    need(cond in ('schedule.schedule.counter > int(name)',
+                  'schedule.schedule.counter > int(name) and int(name) not in schedule.schedule.events'),
+         '_restoreEvents: condition for keeping the old id changed: ' + cond)
+    checks_free = 'not in schedule.schedule.events' in cond
     acalls = [c for c in _calls(branch[0], '_add') if c in [x for st in single for x in ast.walk(st)]]
     need(len(acalls) == 1, '_restoreEvents: expected one self._add(...) call in the single branch')
     pos = [ast.unparse(a) for a in acalls[0].args]
@@ -164,13 +169,74 @@ def gen_T18():
     need(any(ast.unparse(x) == 'id = schedule.addEvent(f_wrapper, time.time() + next_run_in, name)' for x in prep.body)
          and any(ast.unparse(x) == 'f_wrapper = schedule.schedule.makePeriodicWrapper(f, seconds, name)' for x in prep.body),
          'Scheduler._repeat: scheduling changed')
+    # the closures: tokenize; [remove: del self.events[...]]; [repair C01.b: user ignored now -> log, return]; run the command
     mk = find_def(pt, '_makeCommandFunction', 'Scheduler')
-    need('if remove:\n            del self.events[str(f.eventId)]\n        self.Proxy(irc, msg, tokens)' in ast.unparse(mk),
-         'Scheduler._makeCommandFunction: delete-then-run changed')
+    inner = [n for n in mk.body if isinstance(n, ast.FunctionDef) and n.name == 'f']
+    need(len(inner) == 1, 'Scheduler._makeCommandFunction: no inner f()')
+    fb = [ast.unparse(x) for x in inner[0].body]
+    need(fb[0] == 'irc = world.getIrc(network) or world.ircs[0]'
+         and fb[1] == 'tokens = callbacks.tokenize(command, channel=msg.channel, network=irc.network)'
+         and fb[2] == 'if remove:\n    del self.events[str(f.eventId)]' and fb[-1] == 'self.Proxy(irc, msg, tokens)',
+         'Scheduler._makeCommandFunction: tokenize / delete-then-run changed: %r' % fb)
+    if len(fb) == 4:
+        cmd_checks = False
+    else:
+        need(len(fb) == 5 and isinstance(inner[0].body[3], ast.If) and ast.unparse(inner[0].body[3].test) == 'self._isIgnored(msg)'
+             and not inner[0].body[3].orelse and isinstance(inner[0].body[3].body[-1], ast.Return) and inner[0].body[3].body[-1].value is None
+             and all(isinstance(x, ast.Expr) and ast.unparse(x).startswith('self.log.') for x in inner[0].body[3].body[:-1]),
+             'Scheduler._makeCommandFunction: the ignored-user branch changed: %r' % fb)
+        cmd_checks = True
+    mr = find_def(pt, '_makeReminderFunction', 'Scheduler')
+    inner = [n for n in mr.body if isinstance(n, ast.FunctionDef) and n.name == 'f']
+    need(len(inner) == 1, 'Scheduler._makeReminderFunction: no inner f()')
+    rb = inner[0].body
+    rtxt = [ast.unparse(x) for x in rb]
+    send = ['replyIrc = callbacks.ReplyIrcProxy(irc, msg)', "replyIrc.reply(_('Reminder: %s') % text, msg=msg, prefixNick=True)"]
+    need(rtxt[0] == 'irc = world.getIrc(network) or world.ircs[0]' and rtxt[-1] == 'del self.events[str(f.eventId)]',
+         'Scheduler._makeReminderFunction: reply-then-delete changed: %r' % rtxt)
+    if rtxt[1:-1] == send:
+        rem_checks = False
+    else:
+        need(len(rb) == 3 and isinstance(rb[1], ast.If) and ast.unparse(rb[1].test) == 'not self._isIgnored(msg)'
+             and not rb[1].orelse and [ast.unparse(x) for x in rb[1].body] == send,
+             'Scheduler._makeReminderFunction: the ignored-user guard changed: %r' % rtxt)
+        rem_checks = True
+    need(cmd_checks == rem_checks, 'Scheduler: only one of the two kinds of scheduled functions checks whether the user is ignored')
+    if cmd_checks:
+        ig = find_def(pt, '_isIgnored', 'Scheduler')
+        body = [x for x in ig.body if not (isinstance(x, ast.Expr) and isinstance(x.value, ast.Constant))]
+        need(len(body) == 1 and ast.unparse(body[0]) ==
+             'return ircutils.isUserHostmask(msg.prefix) and ircdb.checkIgnored(msg.prefix, msg.channel)',
+             'Scheduler._isIgnored changed')
+    # die(): flush, unregister the flusher, [repaired: unschedule every event of self.events], parent die
+    die = find_def(pt, 'die', 'Scheduler')
+    dstm = [ast.unparse(x) for x in die.body]
+    need(dstm[:2] == ['self._flush()', 'world.flushers.remove(self._flush)'] and dstm[-1] == 'self.__parent.die()',
+         'Scheduler.die: flush / flusher removal / parent die changed: %r' % dstm)
+    if len(die.body) == 3:
+        die_unschedules = False
+    else:
+        need(len(die.body) == 4 and isinstance(die.body[2], ast.For), 'Scheduler.die: unexpected statements: %r' % dstm)
+        loop = die.body[2]
+        need(ast.unparse(loop.target) == '(name, event)' and ast.unparse(loop.iter) == 'self.events.items()' and not loop.orelse
+             and len(loop.body) == 2, 'Scheduler.die: the unscheduling loop changed')
+        need(ast.unparse(loop.body[0]) == "if event['type'] == 'single':\n    name = int(name)",
+             'Scheduler.die: conversion of a one-shot key to its int id changed')
+        tr = loop.body[1]
+        need(isinstance(tr, ast.Try) and [ast.unparse(x) for x in tr.body] == ['schedule.removeEvent(name)']
+             and len(tr.handlers) == 1 and handler_names(tr.handlers[0]) == ['KeyError']
+             and [ast.unparse(x) for x in tr.handlers[0].body] == ['pass'] and not tr.finalbody and not tr.orelse,
+             'Scheduler.die: removeEvent / except KeyError changed')
+        die_unschedules = True
+    fl = find_def(pt, '_flush', 'Scheduler')
+    need('pickle.dump(self.events, pkl)' in ast.unparse(fl), 'Scheduler._flush: what is pickled changed')
     out = 'Definition RUN_CMP_STRICT : bool := %s.\n' % cbool(strict)
     out += 'Definition RESCHED_PASSES_ARGS : bool := %s.\n' % cbool(passes)
     out += 'Definition WRAPPER_RETURNS_IN_FINALLY : bool := %s.\n' % cbool(returns)
     out += 'Definition RUN_LOG_INTERPOLATES_NAME : bool := %s.\n' % cbool(interpolates)
     out += 'Definition RUN_LOG_DIRECTIVES : N := %d.\n' % directives
     out += 'Definition RESTORE_PASSES_ID : bool := %s.\n' % cbool(passes_id)
+    out += 'Definition DIE_UNSCHEDULES : bool := %s.\n' % cbool(die_unschedules)
+    out += 'Definition RESTORE_CHECKS_FREE : bool := %s.\n' % cbool(checks_free)
+    out += 'Definition FIRE_CHECKS_IGNORED : bool := %s.\n' % cbool(cmd_checks)
     return 'src/schedule.py + plugins/Scheduler/plugin.py', out
